@@ -1733,6 +1733,10 @@ class OR(LogicalOperator, ABC):
         if child is self.left:
             if when_false or (when_false is None):
                 required_vars.update(self.right._unique_variables_)
+                # where the left branch is false the right branch may hold, then the variables of the conclusions
+                # in the right branch are needed as well.
+                for conc in list(self.right._conclusion_) + self.right._conclusions_of_all_descendants_:
+                    required_vars.update(conc._unique_variables_)
                 when_iam = None
             else:
                 when_iam = True
